@@ -55,7 +55,7 @@ def three_node_failures():
 def check(run):
     thorough = run.tier == "thorough"
     run.model_check("MC_Session", "MC_Session_keepalive.cfg")
-    hs = sessionlib.gen(run, "c13", [1, 2], [1, 2], "N12", 4 if not thorough else 5, ["short", "long"],
+    hs = sessionlib.gen(run, "c13", [1, 2], [1, 2], "N12", 4 if not thorough else 5, ["short", "long", "verylong"],
                         ["disconnect", "close", "malformed"], maxidle=2)
     hs = [h for h in hs if h[0]["op"] == "connect" and h[0]["c"] == 1]
     pf = sessionlib.gen(run, "c13pf", [1, 2], [1, 2], "N12", 4, ["short"], ["disconnect"], maxidle=1, peerfail=True)
